@@ -52,13 +52,16 @@ def drive_all(model, spec, tag, st, max_paths=None, sample=None, pools=(True, Tr
             if collect is not None:       # every launch / successor order the real engine used on any path
                 collect.setdefault('orders', []).extend(obs['orders'])
                 collect.setdefault('descs', {}).update(obs['descendants'])
-            if obs['missing']:
+            resm = model.run(spec, obs['actions'], orders + obs['orders'], dict(descs, **obs['descendants']), pools=pools, obs=obs)
+            if obs['missing'] and resm.get('pick_matched') in (None, 0):
                 d = ['the implementation had no such outstanding completion (%d of the actions)' % obs['missing']]
+            elif resm.get('ambiguous_orders'):
+                continue
             else:
-                resm = model.run(spec, obs['actions'], orders + obs['orders'], dict(descs, **obs['descendants']), pools=pools)
-                if resm.get('ambiguous_orders'):
-                    continue
-                d = M.compare(obs, resm)
+                # (when the implementation reported another of several failed tasks than the explorer's default, the path was explored
+                # under the other choice: the model re-run with the implementation's choice must then miss the same completions)
+                d = [x for x in M.compare(obs, resm)
+                     if not (obs['missing'] and obs['missing'] == resm.get('missing') and x.startswith('model: '))]
             if d:
                 if new_desc and attempt < 2:
                     # the run used a successor order the exploration did not know: learn it and explore again
